@@ -544,11 +544,21 @@ def sessions_for(tier, rng):
                     c.addr = rand_addr(rng, v6=False)
                 if rng.random() < 0.3 and c.comp > 1:
                     c.f = b"shared"
-                key = (s, c.comp, c.addr.fam, c.addr.b, c.addr.port or 9, c.tr)
+                key = (s, c.comp, c.addr.fam, c.addr.b, c.addr.port or 9, c.tr, c.ty)
                 if key in seen and not dup_ok:
                     continue
                 seen.add(key)
                 L.append(f"sdp local {s + 1} {c.words()}")
+                if rng.random() < 0.25:
+                    # a twin on the same address, port and transport with ANOTHER type (an un-NATed peer advertises its host
+                    # candidate and an identical server-reflexive one): two candidates, both must survive the round trip
+                    t = rand_cand(rng, comp_max=counts[s])
+                    t.addr, t.tr, t.comp = c.addr, c.tr, c.comp
+                    t.ty = rng.choice([x for x in range(4) if x != c.ty])
+                    k2 = (s, t.comp, t.addr.fam, t.addr.b, t.addr.port or 9, t.tr, t.ty)
+                    if k2 not in seen:
+                        seen.add(k2)
+                        L.append(f"sdp local {s + 1} {t.words()}")
             if rng.random() < 0.03:
                 c = rand_cand(rng); c.comp = counts[s] + 1
                 L.append(f"sdp local {s + 1} {c.words()}")
@@ -903,12 +913,19 @@ def oracle(session, out, st):
                     continue
                 if state.get(sid, {}).get("u") != u or state.get(sid, {}).get("p") != p:
                     return f"stream {sid}: remote credentials {state.get(sid)} != local credentials of the generating agent {(u, p)}"
-            keys = [(s, c.comp, c.addr.fam, c.addr.b, c.addr.port or 9, c.tr) for s, c in agentA["locals"]]
+            # (a remote candidate is the same candidate only if address, port, transport AND type agree)
+            keys = [(s, c.comp, c.addr.fam, c.addr.b, c.addr.port or 9, c.tr, c.ty) for s, c in agentA["locals"]]
             if len(set(keys)) == len(keys) and all(len(c.f) <= 32 for s, c in agentA["locals"]):
                 for sid in agentA["cred"]:
                     want = [expect_parsed(c, sid) for s, c in agentA["locals"]
                             if s == sid and c.ty != 2 and c.prio != 0 and (not agentA["relay"] or c.ty == 3)]
                     got = state.get(sid, {}).get("cands", [])
+                    akeys = [k[:6] for k in keys]
+                    if len(set(akeys)) != len(akeys):
+                        # twins (same address / port / transport, different types): a SECOND transfer appends the twin again
+                        # (the look-up by address finds the other type first) — outside the statement, which is about one
+                        # generate -> parse; compare as sets
+                        got, want = list({repr(x): x for x in got}.values()), list({repr(x): x for x in want}.values())
                     if sorted(map(repr, got)) != sorted(map(repr, want)):
                         return f"stream {sid}: remote candidates after parse_remote_sdp {got} differ from the local candidates generated {want}"
             st.res("xfer ok"); st.nontrivial.add(("xfer", tuple(session[:12])))
